@@ -44,6 +44,8 @@ enum flexopt_flag_t {
 	OPT_8BIT,
 	OPT_ALIGN,
 	OPT_ALWAYS_INTERACTIVE,
+	OPT_ANSI_DEFINITIONS,
+	OPT_ANSI_PROTOTYPES,
 	OPT_ARRAY,
 	OPT_BACKUP,
 	OPT_BACKUP_FILE,
